@@ -19,7 +19,7 @@ NCPU = os.cpu_count() or 4
 CONFIGS = {
     # clang, not gcc, for ASan: Cello.h marks the conservative stack scan no_sanitize only under clang
     "asan": dict(cc="clang", cflags="-O1 -g -fno-omit-frame-pointer -fsanitize=address,undefined "
-                                    "-fno-sanitize-recover=all", ld="-fsanitize=address,undefined"),
+                                    "-fno-sanitize-recover=all -fno-sanitize=pointer-overflow", ld="-fsanitize=address,undefined"),
     "plain": dict(cc="gcc", cflags="-O2 -g -fno-omit-frame-pointer", ld=""),
     "plain0": dict(cc="gcc", cflags="-O0 -g -fno-omit-frame-pointer", ld=""),
     "tsan": dict(cc="gcc", cflags="-O1 -g -fno-omit-frame-pointer -fsanitize=thread", ld="-fsanitize=thread"),
@@ -126,15 +126,23 @@ def _parse_res(path, sr):
                 parts = line.split(" ", 2)
                 sr.violations.append((parts[1], parts[2] if len(parts) > 2 else ""))
             elif line.startswith("C "):
-                _, name, n = line.split(" ", 2)
-                sr.counters[name] = sr.counters.get(name, 0) + int(n)
+                try:
+                    _, name, n = line.split(" ", 2)
+                    sr.counters[name] = sr.counters.get(name, 0) + int(n)
+                except ValueError:
+                    continue
             elif line.startswith("H "):
-                _, h, nt = line.split(" ")
-                sr.hashes[h] = max(sr.hashes.get(h, 0), int(nt))
+                parts = line.split(" ")
+                if len(parts) != 3 or parts[2] not in ("0", "1"):
+                    continue    # torn line of a process that died
+                sr.hashes[parts[1]] = max(sr.hashes.get(parts[1], 0), int(parts[2]))
             elif line.startswith("S "):
                 sr.samples.append(line[2:])
             elif line.startswith("E "):
-                sr.evals += int(line[2:])
+                try:
+                    sr.evals += int(line[2:])
+                except ValueError:
+                    continue
             elif line.startswith("I "):
                 sr.info.append(line[2:])
             elif line == "DONE":
@@ -415,7 +423,7 @@ def finish(out, rule, floors=None, assumptions=(), samples_extra=(), exhaustive=
             print("VIOLATION property=%s replay=%s" % (prop, rp))
             log("  key=%s" % key)
             for t in out.violations[key][:2]:
-                log("    " + t[:1200])
+                log("    " + t[:420])
         rc = 1
     if rc == 0 and (out.inconclusive or unmet):
         for m in out.inconclusive:
